@@ -474,7 +474,7 @@ pub fn main(seed: u64, tier: &str, only: Option<&str>) {
         run_case("replay", &out::unhex(f[3]), f[1].parse().unwrap(), f[2].parse().unwrap(), v, &mut stats);
         return;
     }
-    let n = if tier == "thorough" { 2000 } else { 120 };
+    let n = if tier == "thorough" { 2000 * crate::out::thorough_scale() } else { 120 };
     for case in 0..n {
         let mut rng = Rng::new(seed ^ 0xd3a2f, case as u64);
         let mut g = if case % 3 == 0 { GenCfg::mvp() } else { GenCfg::random(&mut rng) };
